@@ -130,6 +130,8 @@ type gen struct {
 	tagN          int
 	inExprClosure int
 	inExprCall    int
+	noCmt         int  // >0: no comment decoration (inside type / const groups)
+	skipCmt       bool // no comment line before the next statement (it follows a label)
 	rangeNext     bool // the next loop body pushed belongs to a range loop
 	noCalls       int  // >0: expressions must not contain calls
 	smallLits     int  // >0: integer literals stay small (inside map literals when maplit:int:above-int32 is avoided)
@@ -194,7 +196,11 @@ func (g *gen) line(f string, a ...any) {
 	if len(g.scopes) > 0 {
 		g.scopes[len(g.scopes)-1].lines++
 	}
-	if g.o.Comments && g.chance(18) {
+	// no comment line between a label and its loop, before a case/default clause, or inside a type/const
+	// group: the Ego compiler does not accept a comment line in those places
+	quiet := g.noCmt > 0 || g.skipCmt || strings.HasPrefix(s, "case ") || strings.HasPrefix(s, "default:")
+	g.skipCmt = false
+	if g.o.Comments && !quiet && g.chance(18) {
 		g.sb.WriteString(strings.Repeat("\t", g.ind))
 		g.sb.WriteString(g.comment("before"))
 		g.sb.WriteString("\n")
@@ -582,6 +588,7 @@ func (g *gen) constDecls() {
 		return
 	}
 	g.line("const (")
+	g.noCmt++
 	g.ind++
 	for i := 0; i < n; i++ {
 		if g.chance(70) {
@@ -597,6 +604,7 @@ func (g *gen) constDecls() {
 	}
 	g.ind--
 	g.line(")")
+	g.noCmt--
 	g.raw("")
 }
 
@@ -606,6 +614,7 @@ func (g *gen) structDecl() {
 	sd.t = &typ{k: kStruct, sd: sd}
 	nf := 2 + g.pick(3)
 	g.line("type %s%s struct {", pfx, sd.name)
+	g.noCmt++
 	g.ind++
 	for i := 0; i < nf; i++ {
 		var t *typ
@@ -621,6 +630,7 @@ func (g *gen) structDecl() {
 	}
 	g.ind--
 	g.line("}")
+	g.noCmt--
 	g.raw("")
 	g.structs = append(g.structs, sd)
 
